@@ -18,6 +18,10 @@ fn sizes(d: usize, rng: &mut Rng, big: bool) -> usize {
 
 pub fn one<const D: usize>(id: &str, ps: &gens::PointSet, g: usize, robust: bool, opts: &Opts, api: u8, rng: &mut Rng, out: &mut Out) {
     let vs = tri::make_vertices::<D>(&ps.pts, rng);
+    if std::env::var("VH_DUMP").ok().as_deref() == Some(id) {
+        for v in &vs { eprintln!("DUMP {id} vertex uuid={} coords={:?} data={:?}", v.uuid(), v.point(), v.data); }
+        eprintln!("DUMP {id} g={g} robust={robust} {} api={api}", opts.tag());
+    }
     let mut ids = Ids::default();
     out.case(
         id,
